@@ -247,7 +247,7 @@ func canonInt(v string, base int) string {
 	return itoa(int(n))
 }
 
-var stringVals = []string{"a", "v1", "hello", "", "=a", "a=b", "x y", `"q w"`, "-", "é", "k:v", "世界", `"a\"b"`, "5", "true", "a:b:c", "'s'", "`t`"}
+var stringVals = []string{"a", "v1", "hello", "", "=a", "a=b", "x y", `"q w"`, "`d`", "a:b", "-", "é", "k:v", "世界", `"a\"b"`, "5", "true", "a:b:c", "'s'", "`t`"}
 var oddStringVals = []string{"--", "-5", "-x", "--x", "--alpha", `"`, `"abc`, `"a"b`, "-é", "---", `"\n"`, `"\x41"`, `"é"`, "\xff", "a\x00b", "!bang", "50%d", "%s", "100%"}
 
 func validValue(r *rand.Rand, o *OptNode) string {
@@ -258,7 +258,7 @@ func validValue(r *rand.Rand, o *OptNode) string {
 	var v string
 	switch {
 	case vt == "string" || vt == "um" || vt == "us" || vt == "cc":
-		v = pick(r, stringVals[:10])
+		v = pick(r, stringVals[:12])
 		if (vt == "um" || vt == "us") && strings.HasPrefix(v, "!") {
 			v = "u"
 		}
